@@ -59,6 +59,17 @@ def specs(ctx, n):
         else:
             T = total + 5
         calls = [dict(n_iter=n_iter, max_time=T, memory=False)]
+        # the time budget together with other stopping criteria that cannot fire in this run: the rows are still decided by time
+        r2 = rng.random()
+        if r2 < 0.2:
+            calls[0]["early_stopping"] = {"n_iter_no_change": n_iter + rng.choice([1, 5])}
+        elif r2 < 0.3:
+            calls[0]["early_stopping"] = {"n_iter_no_change": n_iter + 2, "tol_abs": 0.5, "tol_rel": 10}
+        elif r2 < 0.4:
+            calls[0]["max_score"] = 1e12
+        elif r2 < 0.45:
+            calls[0]["max_score"] = 1e12
+            calls[0]["early_stopping"] = {"n_iter_no_change": n_iter + 3}
         out.append(dict(name=name, space=space, table=table, durations=durs, calls=calls, seed=rng.randrange(10 ** 6),
                         init=gen.gen_initialize(rng, space), read_cost=rng.choice([0, 0, 1]), scalar="float"))
     return out
@@ -67,7 +78,8 @@ def specs(ctx, n):
 def d_unit_and_monitor(ctx, n):
     u = ctx.unit("D:search(max_time)", "D",
                  "real search() under the virtual clock (objective advances it by scripted integer durations; optionally "
-                 "every clock read costs one tick) with T at/around cumulative deadlines vs the model driver fed the same "
+                 "every clock read costs one tick) with T at/around cumulative deadlines, alone or combined with early_stopping / max_score "
+                 "settings that cannot fire, vs the model driver fed the same "
                  "clock readings; non-trivial = n_iter >= 2; distinct by (durations, T, read_cost)")
     ctx.monitor_rule = ("rows == first k with (time after step k) - start > T else n_iter, time taken from the harness clock "
                         "(read_cost=0 runs); distinct by (optimizer, durations, T)")
